@@ -200,9 +200,54 @@ Definition argdep_ok : bool :=
 Lemma argdep_current : argdep_ok = true.
 Proof. vm_compute. reflexivity. Qed.
 
+(* ---- Config.channel's write loop checks EVERY channel before writing it (each write goes through _setValue =
+        checkCanSetValue ; set), and checkCanSetValue / getCapability are the ones Model.set_value / config_cap mirror ---- *)
+Definition EXPECTED_CONFIG_CHANNEL : list str :=
+   (* assert irc.isChannel(channel) *)
+   (* self._setValue(irc, msg, group.get(channel), value) *)
+   (* if network != '*': |     self._setValue(irc, msg, group.get(':' + network.network).get(channel), value) *)
+   (* -- *)
+   (* irc.replySuccess() *)
+   (* -- _setValue *)
+   (* checkCanSetValue(irc, msg, group) *)
+   (* group.set(value) *)
+   (* -- checkCanSetValue *)
+   (* if isReadOnly(group._name): irc.error(<text>, Raise=True) *)
+   (* capability = getCapability(irc, group._name) *)
+   (* if not ircdb.checkCapability(msg.prefix, capability): |     irc.errorNoCapability(capability, Raise=True) *)
+   (* -- getCapability *)
+   (* capability = 'owner' *)
+   (* if not name.startswith('supybot') and (not name.startswith('users')): |     name = 'supybot.' + name *)
+   (* parts = registry.split(name) *)
+   (* group = getattr(conf, parts.pop(0)) *)
+   (* while parts: |     part = parts.pop(0) |     group = group.get(part) |     if not getattr(group, '_opSettable', True): |         return 'owner' |     if irc.isC *)
+   (* return capability *)
+  [[97;115;115;101;114;116;32;105;114;99;46;105;115;67;104;97;110;110;101;108;40;99;104;97;110;110;101;108;41];
+   [115;101;108;102;46;95;115;101;116;86;97;108;117;101;40;105;114;99;44;32;109;115;103;44;32;103;114;111;117;112;46;103;101;116;40;99;104;97;110;110;101;108;41;44;32;118;97;108;117;101;41];
+   [105;102;32;110;101;116;119;111;114;107;32;33;61;32;39;42;39;58;10;32;32;32;32;115;101;108;102;46;95;115;101;116;86;97;108;117;101;40;105;114;99;44;32;109;115;103;44;32;103;114;111;117;112;46;103;101;116;40;39;58;39;32;43;32;110;101;116;119;111;114;107;46;110;101;116;119;111;114;107;41;46;103;101;116;40;99;104;97;110;110;101;108;41;44;32;118;97;108;117;101;41];
+   [45;45];
+   [105;114;99;46;114;101;112;108;121;83;117;99;99;101;115;115;40;41];
+   [45;45;32;95;115;101;116;86;97;108;117;101];
+   [99;104;101;99;107;67;97;110;83;101;116;86;97;108;117;101;40;105;114;99;44;32;109;115;103;44;32;103;114;111;117;112;41];
+   [103;114;111;117;112;46;115;101;116;40;118;97;108;117;101;41];
+   [45;45;32;99;104;101;99;107;67;97;110;83;101;116;86;97;108;117;101];
+   [105;102;32;105;115;82;101;97;100;79;110;108;121;40;103;114;111;117;112;46;95;110;97;109;101;41;58;32;105;114;99;46;101;114;114;111;114;40;60;116;101;120;116;62;44;32;82;97;105;115;101;61;84;114;117;101;41];
+   [99;97;112;97;98;105;108;105;116;121;32;61;32;103;101;116;67;97;112;97;98;105;108;105;116;121;40;105;114;99;44;32;103;114;111;117;112;46;95;110;97;109;101;41];
+   [105;102;32;110;111;116;32;105;114;99;100;98;46;99;104;101;99;107;67;97;112;97;98;105;108;105;116;121;40;109;115;103;46;112;114;101;102;105;120;44;32;99;97;112;97;98;105;108;105;116;121;41;58;10;32;32;32;32;105;114;99;46;101;114;114;111;114;78;111;67;97;112;97;98;105;108;105;116;121;40;99;97;112;97;98;105;108;105;116;121;44;32;82;97;105;115;101;61;84;114;117;101;41];
+   [45;45;32;103;101;116;67;97;112;97;98;105;108;105;116;121];
+   [99;97;112;97;98;105;108;105;116;121;32;61;32;39;111;119;110;101;114;39];
+   [105;102;32;110;111;116;32;110;97;109;101;46;115;116;97;114;116;115;119;105;116;104;40;39;115;117;112;121;98;111;116;39;41;32;97;110;100;32;40;110;111;116;32;110;97;109;101;46;115;116;97;114;116;115;119;105;116;104;40;39;117;115;101;114;115;39;41;41;58;10;32;32;32;32;110;97;109;101;32;61;32;39;115;117;112;121;98;111;116;46;39;32;43;32;110;97;109;101];
+   [112;97;114;116;115;32;61;32;114;101;103;105;115;116;114;121;46;115;112;108;105;116;40;110;97;109;101;41];
+   [103;114;111;117;112;32;61;32;103;101;116;97;116;116;114;40;99;111;110;102;44;32;112;97;114;116;115;46;112;111;112;40;48;41;41];
+   [119;104;105;108;101;32;112;97;114;116;115;58;10;32;32;32;32;112;97;114;116;32;61;32;112;97;114;116;115;46;112;111;112;40;48;41;10;32;32;32;32;103;114;111;117;112;32;61;32;103;114;111;117;112;46;103;101;116;40;112;97;114;116;41;10;32;32;32;32;105;102;32;110;111;116;32;103;101;116;97;116;116;114;40;103;114;111;117;112;44;32;39;95;111;112;83;101;116;116;97;98;108;101;39;44;32;84;114;117;101;41;58;10;32;32;32;32;32;32;32;32;114;101;116;117;114;110;32;39;111;119;110;101;114;39;10;32;32;32;32;105;102;32;105;114;99;46;105;115;67;104;97;110;110;101;108;40;112;97;114;116;41;58;10;32;32;32;32;32;32;32;32;99;97;112;97;98;105;108;105;116;121;32;61;32;105;114;99;100;98;46;109;97;107;101;67;104;97;110;110;101;108;67;97;112;97;98;105;108;105;116;121;40;112;97;114;116;44;32;39;111;112;39;41];
+   [114;101;116;117;114;110;32;99;97;112;97;98;105;108;105;116;121]].
+Lemma config_channel_shape_current : lstr_eqb gen.T01.CONFIG_CHANNEL EXPECTED_CONFIG_CHANNEL = true.
+Proof. vm_compute. reflexivity. Qed.
+
 Definition inventory_ok : bool :=
   wraps_ok gen.T01.WRAPS && catches_eqb gen.T01.CATCHES EXPECTED_CATCHES
   && pairs_eqb (callcmd_uses gen.T01.CALLSITES) EXPECTED_CALLCOMMAND_USES && defaults_ok gen.T01.DEFAULT_CAPS
-  && denial_shape_ok && nocap_sites_ok gen.T01.NOCAP_SITES && argdep_ok.
+  && denial_shape_ok && nocap_sites_ok gen.T01.NOCAP_SITES && argdep_ok
+  && lstr_eqb gen.T01.CONFIG_CHANNEL EXPECTED_CONFIG_CHANNEL.
 Lemma inventory_current : inventory_ok = true.
 Proof. vm_compute. reflexivity. Qed.
